@@ -1114,7 +1114,7 @@ class Lowerer:
             elif c['kind'] == 'CompoundStmt':
                 body = c
         params.extend(extra_params)
-        rett = qt(d).split('(')[0].strip()
+        rett = return_type_of(qt(d))
         if self.decl.get('kind') in ('CXXConstructorDecl', 'CXXDestructorDecl'):
             rett = 'void'
         self.ret_ctype = self.ctype(rett)
@@ -1165,6 +1165,20 @@ def rangefor_indexed(size_tmpl, elem_tmpl, index_type='int'):
 
 
 # ---------------------------------------------------------------------- helpers
+def return_type_of(sig):
+    """return type of a function type string `RET (PARAMS) quals`: the text before the first '(' that is not inside
+    template angle brackets (a return type such as std::function<void (A &, B *)> contains parentheses itself)"""
+    d = 0
+    for i, ch in enumerate(sig):
+        if ch == '<':
+            d += 1
+        elif ch == '>':
+            d -= 1
+        elif ch == '(' and d == 0:
+            return sig[:i].strip()
+    return sig.split('(')[0].strip()
+
+
 def balanced(s):
     d = 0
     for ch in s:
